@@ -660,3 +660,26 @@ def result_blocks(fn, variant="Ok"):
                     out.append(b)
     cached[variant] = out
     return out
+
+
+def flag_edges(fn, guard_edges):
+    """true edges of found-flags: a bool local assigned only constants, `true` only in blocks dominated by one of guard_edges
+    [(switch_bb, target_bb)].  On the true edge of a test of such a flag some guard edge was passed earlier.
+    Returns [(switch_bb, true_target)]."""
+    out = []
+    for l in range(len(fn.locals)):
+        ds = fn.defs.get(l, [])
+        if len(ds) < 2 or fn.local_ty(l)["k"] != "bool":
+            continue
+        vals = []
+        for (b, i, rv) in ds:
+            v = const_int(rv["a"]) if (i != "term" and rv["k"] == "use") else None
+            vals.append((b, v))
+        if any(v is None for b, v in vals):
+            continue
+        trues = [b for b, v in vals if v == 1]
+        if not trues or not all(any(edge_dominates(fn, sb, tb, b) for (sb, tb) in guard_edges) for b in trues):
+            continue
+        for (sb, tt, ft) in bool_branch(fn, l, as_variable=True):
+            out.append((sb, tt))
+    return out
